@@ -9,10 +9,10 @@
 
     Main theorems (helper files: IndexRun, IndexEnv, IndexHandlers, IndexSwap, IndexPhases):
     - [index_prefix_exec]      the hub handler, all withdrawals and the whole swap leg execute
-                               (at most 15 messages); only dispatcher/swap bank balances and the
+                               (at most 19 messages); only dispatcher/swap bank balances and the
                                pending rewards change;
     - [index_dispatch_exec]    from the pre-dispatch world, DispatchRewards with everything below it
-                               executes (at most 17 messages) when the dispatcher's balances are
+                               executes (at most 21 messages) when the dispatcher's balances are
                                outside finding F2, with the exact end-state accounting;
     - [update_global_index_effect]  chain level: [run tx_fuel w [(sender, UpdateGlobalIndex)] []]
                                SUCCEEDS and the final world has the stated accounting;
@@ -142,7 +142,7 @@ Section Prefix.
     (forall a d, a <> A_disp -> a <> A_swap -> bal e1 a d = bal e a d).
 
   Lemma index_prefix_exec :
-    exists e1 n, Exec w0 prefix_stack (set_env w0 e1) n /\ (n <= 14)%nat /\ PreEnv e1.
+    exists e1 n, Exec w0 prefix_stack (set_env w0 e1) n /\ (n <= 18)%nat /\ PreEnv e1.
   Proof.
     set (ew := withdraw_all A_hub vs e).
     pose proof (withdraw_all_frame A_hub vs e) as Hfr. cbn zeta in Hfr. fold ew in Hfr.
@@ -161,7 +161,7 @@ Section Prefix.
     { lia. }
     exists e1, (length vs + n)%nat. split; [|split].
     - unfold prefix_stack. eapply Exec_app; [exact Hwp | exact Hex].
-    - assert (Hl : (length vs <= 8)%nat).
+    - assert (Hl : (length vs <= 12)%nat).
       { unfold vs, del_vals. rewrite map_length, all_delegations_sel. unfold sel.
         assert (G : forall L, (length (flat_map (fun v => match delegation e A_hub v with
                      Some a => [(v, a)] | None => [] end) L) <= length L)%nat).
@@ -229,7 +229,7 @@ Section Dispatch.
     exists h' e' n,
       Exec w1 [(A_hub, MWasm A_disp (WDisp DDispatch) [])]
            (set_reward (set_env (set_hub w1 h') e')
-                       (index_updated r (bal e1 A_reward bd + (X_b - kb)))) n /\ (n <= 17)%nat /\
+                       (index_updated r (bal e1 A_reward bd + (X_b - kb)))) n /\ (n <= 21)%nat /\
       (rb = 0 -> h' = h0) /\
       (rb <> 0 -> exists s1 ser,
           query_actual_state w1 A_hub h0 = Some s1 /\
